@@ -49,9 +49,10 @@ using namespace vh;
 namespace {
 
 const int IQ = 0, IU = 1, IZ = 2;
-const double DT = 2e-9;        // slack (time units) when comparing with analytic crossing times
+double DT = 2e-9;              // slack (time units) when comparing with analytic crossing times (debug: --dt)
 const double GUARD = 2e-8;     // roots this close to the start of a continuous interval are not judged
 const double YTOL = 1e-10;     // relative slack for "state lies on the analytic trajectory"
+const double CPTOL = 1e-2;     // CPodes: additional slack as a fraction of the requested accuracy
 const size_t CALLCAP = 3000;   // handler-call runaway guard
 
 // ------------------------------------------------------------------ parameters of one generated system
@@ -349,20 +350,17 @@ std::unique_ptr<Integrator> makeInteg(int k, const System& sys, double hmax, boo
 
 // ------------------------------------------------------------------ analytic trajectory pieces
 struct Traj { double ts = 0; std::vector<double> y; double mu = 1, nu = 1; };
-struct Root { double t; int dir; bool soft; };
+struct Root { double t; int dir; bool soft; double crate; };   // crate = |d(component read by the witness)/dt| at the root
 
 bool exactComp(const Par& P, int comp, bool qx) {
     if (comp == IQ) return qx;
     if (comp == IU) return true;
     return comp < IZ + P.nzl;
 }
-bool exactWit(const Par& P, const Wit& w, bool qx) {
-    switch (w.kind) {
-    case WQuad: return qx;
-    case WOsc: return false;
-    default: return true;
-    }
-}
+// Witnesses whose crossings are known in closed form. Where the integrator does not reproduce the
+// trajectory exactly (q for first-order methods, everything for CPodes up to its tolerance) the measured
+// deviation of the observed states from the analytic trajectory widens the time slack (see tslack()).
+bool exactWit(const Par&, const Wit& w, bool) { return w.kind != WOsc; }
 double flow(const Par& P, const Traj& T, int comp, double t) {
     const double dt = t - T.ts, r = T.mu * T.nu;
     if (comp == IQ) return T.y[IQ] + T.y[IU] * dt + 0.5 * P.a * r * dt * dt;
@@ -381,12 +379,12 @@ void rootsOf(const Par& P, const Wit& w, const Traj& T, double tEnd, double hmax
     auto lin = [&](double v0, double rate) {
         if (rate == 0) return;
         double dt = (w.L - v0) / rate;
-        if (dt > 0 && T.ts + dt <= tEnd) out.push_back({T.ts + dt, sgn(w.k * rate), false});
+        if (dt > 0 && T.ts + dt <= tEnd) out.push_back({T.ts + dt, sgn(w.k * rate), false, std::fabs(rate)});
     };
     switch (w.kind) {
     case WLinZ: case WBoolZ: lin(T.y[w.comp], P.c[w.comp - IZ] * r); break;
     case WVelU: lin(T.y[IU], P.a * r); break;
-    case WTime: if (w.L > T.ts && w.L <= tEnd) out.push_back({w.L, sgn(w.k), false}); break;
+    case WTime: if (w.L > T.ts && w.L <= tEnd) out.push_back({w.L, sgn(w.k), false, 1.0}); break;
     case WSinZ: {
         const double s = w.om * P.c[w.comp - IZ] * r, th0 = w.om * (T.y[w.comp] - w.phi);
         if (s == 0) break;
@@ -397,13 +395,13 @@ void rootsOf(const Par& P, const Wit& w, const Traj& T, double tEnd, double hmax
             if (T.ts + dt > tEnd) break;
             bool even = (n % 2 == 0);
             int d = (s > 0) ? (even ? 1 : -1) : (even ? -1 : 1);
-            out.push_back({T.ts + dt, d * sgn(w.k), false});
+            out.push_back({T.ts + dt, d * sgn(w.k), false, std::fabs(P.c[w.comp - IZ] * r)});
         }
         break;
     }
     case WQuad: {
         const double A = P.a * r, u0 = T.y[IU], d0 = T.y[IQ] - w.L;
-        if (A == 0) { if (u0 != 0) { double dt = -d0 / u0; if (dt > 0 && T.ts + dt <= tEnd) out.push_back({T.ts + dt, sgn(w.k * u0), false}); } break; }
+        if (A == 0) { if (u0 != 0) { double dt = -d0 / u0; if (dt > 0 && T.ts + dt <= tEnd) out.push_back({T.ts + dt, sgn(w.k * u0), false, std::fabs(u0)}); } break; }
         const double disc = u0 * u0 - 2 * A * d0;
         if (disc < 0) break;
         const double sq = std::sqrt(disc), qq = -(u0 + (u0 >= 0 ? sq : -sq));
@@ -412,7 +410,7 @@ void rootsOf(const Par& P, const Wit& w, const Traj& T, double tEnd, double hmax
         for (double dt : {r1, r2}) {
             if (!(dt > 0) || T.ts + dt > tEnd) continue;
             const double v = u0 + A * dt;
-            out.push_back({T.ts + dt, sgn(w.k * v), std::fabs(v) < 1e-3});
+            out.push_back({T.ts + dt, sgn(w.k * v), std::fabs(v) < 1e-3, std::max(std::fabs(v), 1e-6)});
             if (r1 == r2) break;
         }
         break;
@@ -501,7 +499,21 @@ struct Judge {
     double ytol(const Traj& T, int comp, double t) const {
         double dt = std::fabs(t - T.ts);
         double sc_ = 1 + std::fabs(T.y[comp]) + dt * (std::fabs(S.P.a) * 3 + 3) + dt * dt * std::fabs(S.P.a) * 3;
-        return YTOL * sc_;
+        // CPodes reproduces linear trajectories only up to (a small fraction of) its tolerance
+        return (YTOL + (isCPodes(sc.ik) ? CPTOL * sc.acc : 0.0)) * sc_;
+    }
+    // deviation of the component read by witness w from the analytic trajectory at an observed state
+    double devOf(const Wit& w, const Traj& T, double t, const std::vector<double>& y) const {
+        if (w.kind == WTime || w.kind == WOsc) return 0;
+        return std::fabs(y[w.comp] - flow(S.P, T, w.comp, t));
+    }
+    // time slack when an analytic crossing is compared with what the integrator saw on its own trajectory
+    static double tslack(const Root& rt, double dev) { return DT + 2 * dev / rt.crate; }
+    // the witness is at roundoff-level zero at the start of the segment: its sign there is not decidable,
+    // so a report immediately after the start (re-report of the crossing that ended the previous
+    // interval) is neither required nor forbidden
+    bool ambiguousAtStart(const Wit& w, const Traj& T) const {
+        return std::fabs(w.sg(T.ts, T.y.data())) <= 100 * w.gtol(T.ts, T.y.data());
     }
     // state y at time t must lie on the analytic trajectory (exactly integrated components only)
     void onTraj(const std::string& what, const Traj& T, double t, const std::vector<double>& y) {
@@ -547,6 +559,7 @@ struct Judge {
         }
         std::vector<std::set<double>> seenTimes(S.hs.size());
         std::vector<Root> roots;
+        std::vector<std::pair<double, double>> trigWins;   // (tHigh, width bound) of every triggered dispatch
         bool terminated = false; double tTerm = Infinity;
         double lastT = -Infinity;
         size_t i = 0;
@@ -599,19 +612,21 @@ struct Judge {
                     continue;
                 }
                 rootsOf(P, w, seg, tG + 1, sc.hmax, roots);
-                double best = Infinity;
+                const double dev = devOf(w, seg, tG, r0.yin);
+                double best = 1e9, bestTol = DT;
                 for (auto& rt : roots) if (monitored(w, rt.dir)) {
-                    double ex = std::max(0.0, std::max((tG - Wg) - rt.t, rt.t - tG));
-                    best = std::min(best, ex);
+                    double ex = std::max(0.0, std::max((tG - Wg) - rt.t, rt.t - tG)), tl = tslack(rt, dev);
+                    if (ex / tl < best / bestTol) { best = ex; bestTol = tl; }
                 }
-                if (!std::isfinite(best)) best = 1e9;
-                c.check("trig-call-window:" + tag + ":" + hkName(H.kind), best, DT, [&] {
+                if (best > bestTol && tG - seg.ts <= Wg + DT && ambiguousAtStart(w, seg)) { c.obs("roundoff-level-rereport"); continue; }
+                c.check("trig-call-window:" + tag + ":" + hkName(H.kind), best, bestTol, [&] {
                     Json jr = Json::arr(); for (auto& rt : roots) jr.push(Json::obj().set("t", rt.t).set("dir", rt.dir));
                     return Json::obj().set("scen", sc.str()).set("what", "triggered handler called with no monitored crossing in (t-window, t]").set("tCall", tG).set("window", Wg).set("roots", jr).set("wit", witJ(H.wit)).set("segStart", seg.ts).set("handler", hkey(L[k].h));
                 });
             }
             // (d) no exactly known crossing was skipped / left uncalled before this group
-            missing(seg, tG, Wg, calledTrig, acc, "before-dispatch");
+            missing(seg, tG, r0.yin, Wg, calledTrig, "before-dispatch");
+            if (anyTrig) trigWins.push_back({tG, Wg});
             // (e) timed handlers: only at their scheduled times, once each
             for (size_t k = i; k < j; ++k) {
                 const HSpec& H = S.hs[L[k].h];
@@ -629,7 +644,7 @@ struct Judge {
         if (!terminated) {
             if (tEnd >= seg.ts) onTraj("final-state", seg, tEnd, yEnd);
             std::set<int> none;
-            missing(seg, tEnd, 0, none, acc, "at-end");
+            missing(seg, tEnd, yEnd, 0, none, "at-end");
         }
         // every scheduled time strictly before the end was served
         const double tStop = terminated ? tTerm : tEnd;
@@ -647,6 +662,10 @@ struct Judge {
             for (double x : exp) {
                 if (x >= tStop - slack) continue;
                 if (x == lastTarget) continue;
+                // a report that falls inside a localisation window (the "no man's land") is dropped by design
+                bool inWindow = false;
+                if (isReporter(H.kind)) for (auto& tw : trigWins) inWindow |= (x > tw.first - tw.second - DT && x <= tw.first);
+                if (inWindow) { c.obs("scheduled-report-inside-event-window-dropped"); continue; }
                 bool ok = seenTimes[h].count(x) > 0;
                 c.require(std::string("sched:scheduled-time-not-served:") + hkName(H.kind) + nsub, ok, [&] { return Json::obj().set("scen", sc.str()).set("time", x).set("tStop", tStop).set("handler", (long)h).set("terminated", terminated).set("served", jvec(std::vector<double>(seenTimes[h].begin(), seenTimes[h].end()))); });
             }
@@ -665,7 +684,7 @@ struct Judge {
         c.require(std::string("sched:called-twice-at-one-time:") + hkName(H.kind) + nsub, fresh, [&] { return Json::obj().set("scen", sc.str()).set("tCall", t).set("handler", h); });
     }
     // crossings that had to be reported on segment seg before time tG (window Wg of the dispatch at tG, 0 if none)
-    void missing(const Traj& seg, double tG, double Wg, const std::set<int>& called, double acc, const char* where) {
+    void missing(const Traj& seg, double tG, const std::vector<double>& yObs, double Wg, const std::set<int>& called, const char* where) {
         std::vector<Root> roots;
         for (size_t h = 0; h < S.hs.size(); ++h) {
             const HSpec& H = S.hs[h];
@@ -673,6 +692,7 @@ struct Judge {
             const Wit& w = S.wits[H.wit];
             if (!exactWit(S.P, w, qx)) continue;
             rootsOf(S.P, w, seg, tG + 1, sc.hmax, roots);
+            const double dev = tG >= seg.ts ? devOf(w, seg, tG, yObs) : 0.0;
             for (auto& rt : roots) {
                 if (rt.t >= tG) break;
                 if (rt.soft || !monitored(w, rt.dir) || rt.t - seg.ts <= GUARD) continue;
@@ -680,7 +700,7 @@ struct Judge {
                 // a handler called in this dispatch accounts for a crossing inside the window; anything else
                 // must not lie behind tG at all. Residual = how far the crossing lies before that limit.
                 const double lim = isCalled ? tG - Wg : tG;
-                c.check(std::string("no-skip:") + tag + ":" + where, std::max(0.0, lim - rt.t), DT, [&] {
+                c.check(std::string("no-skip:") + tag + ":" + where, std::max(0.0, lim - rt.t), tslack(rt, dev), [&] {
                     return Json::obj().set("scen", sc.str()).set("what", "monitored persisting crossing was never reported/handled").set("root", rt.t).set("dir", rt.dir).set("tNow", tG).set("window", Wg)
                         .set("handlerCalledInThisDispatch", isCalled).set("wit", witJ(H.wit)).set("segStart", seg.ts).set("handler", hkey((int)h));
                 });
@@ -900,6 +920,7 @@ void runManual(Ctx& c, Scen& sc, Built& B) {
         double tSch = sp < sc.scheds.size() ? sc.scheds[sp] : Infinity;
         if (tRep < integ.getTime() || tSch < integ.getTime()) { c.skip("client-precondition:time-behind-state"); break; }
         c.setPhase("I:stepTo " + sc.str());
+        if (c.args.verbose) fprintf(stderr, "    before stepTo: tAdv=%.17g uAdv=%.17g  t=%.17g u=%.17g\n", integ.getAdvancedTime(), integ.getAdvancedState().getU()[0], integ.getTime(), integ.getState().getU()[0]);
         Integrator::SuccessfulStepStatus st;
         try { st = integ.stepTo(tRep, tSch); }
         catch (const std::exception& e) {
@@ -966,17 +987,28 @@ void runManual(Ctx& c, Scen& sc, Built& B) {
                 // state on which localisation decided)
                 const double glo = wt.sg(tLow, ylo.data()), ghi = wt.sg(tHigh, yhi.data());
                 const double tlo = wt.gtol(tLow, ylo.data()), thi = wt.gtol(tHigh, yhi.data());
-                bool real = rising ? (glo <= tlo && ghi >= -thi) : (glo >= -tlo && ghi <= thi);
-                c.require("event:listed-witness-changed-sign-as-reported:" + tag + ":" + wk, real, [&] { return base().set("transition", tr).set("eLow", elo).set("eHigh", ehi).set("wit", J.witJ(S.hs[h].wit)); });
+                const bool pre = rising ? glo <= tlo : glo >= -tlo, post = rising ? ghi >= -thi : ghi <= thi;
+                auto sj = [&] { return base().set("transition", tr).set("eLow", elo).set("eHigh", ehi).set("gLow", glo).set("gHigh", ghi).set("roundoff", tlo).set("wit", J.witJ(S.hs[h].wit)); };
+                c.require("event:advanced-state-witness-not-past-crossing:" + tag + ":" + wk, post, sj);
+                // before-state on the wrong side: either by no more than the integration accuracy (the crossing lies
+                // just before tLow on the re-interpolated before-state) or macroscopically (no crossing at all)
+                const bool marginal = std::fabs(glo) <= acc * (1 + std::fabs(wt.kind == WTime ? tLow : ylo[wt.comp]));
+                if (pre || marginal) c.require("event:before-state-past-crossing-within-accuracy:" + tag + ":" + (exactWit(P, wt, J.qx) && !isCPodes(sc.ik) && (wt.kind != WQuad || J.qx) ? "exact" : "generic"), pre, sj);
+                if (pre || !marginal) c.require("event:listed-witness-did-not-cross:" + tag + ":" + wk, pre, sj);
                 c.require("event:estimated-time-in-window:" + tag, est[i] > tLow && est[i] <= tHigh, [&] { return base().set("est", est[i]); });
                 if (i > 0) c.require("event:estimated-times-ascending:" + tag, est[i] >= est[i - 1], [&] { return base().set("est", est[i]).set("prev", est[i - 1]); });
                 c.cover(J.coverKey(h));
                 // analytic crossing inside the window
                 if (exactWit(P, wt, J.qx)) {
                     rootsOf(P, wt, seg, tHigh + 1, sc.hmax, roots);
-                    double best = 1e9;
-                    for (auto& rt : roots) if ((rt.dir > 0) == rising) best = std::min(best, std::max(0.0, std::max(tLow - rt.t, rt.t - tHigh)));
-                    c.check("root-in-window:" + tag + ":" + wk, best, DT, [&] {
+                    const double dev = std::max(J.devOf(wt, seg, tLow, ylo), J.devOf(wt, seg, tHigh, yhi));
+                    double best = 1e9, bestTol = DT;
+                    for (auto& rt : roots) if ((rt.dir > 0) == rising) {
+                        double ex = std::max(0.0, std::max(tLow - rt.t, rt.t - tHigh)), tl = Judge::tslack(rt, dev);
+                        if (ex / tl < best / bestTol) { best = ex; bestTol = tl; }
+                    }
+                    if (best > bestTol && tLow - seg.ts <= DT && J.ambiguousAtStart(wt, seg)) { c.obs("roundoff-level-rereport"); continue; }
+                    c.check("root-in-window:" + tag + ":" + wk, best, bestTol, [&] {
                         Json jr = Json::arr(); for (auto& rt : roots) jr.push(Json::obj().set("t", rt.t).set("dir", rt.dir));
                         return base().set("what", "no analytic crossing of the listed witness (reported direction) inside (tLow,tHigh]").set("roots", jr).set("wit", J.witJ(S.hs[h].wit)).set("eLow", elo).set("eHigh", ehi);
                     });
@@ -992,17 +1024,20 @@ void runManual(Ctx& c, Scen& sc, Built& B) {
                 const Wit& wt = S.wits[S.hs[h].wit];
                 if (!exactWit(P, wt, J.qx)) continue;
                 rootsOf(P, wt, seg, tHigh + 1, sc.hmax, roots);
+                const double dev = std::max(J.devOf(wt, seg, tLow, ylo), J.devOf(wt, seg, tHigh, yhi));
                 for (auto& rt : roots) {
                     if (rt.t >= tHigh) break;
                     if (rt.soft || !monitored(wt, rt.dir) || rt.t - seg.ts <= GUARD) continue;
-                    if (rt.t < tLow - DT)
-                        c.check("no-skip:" + tag + ":before-event-window", tLow - rt.t, DT, [&] { return base().set("what", "an earlier monitored crossing was never reported").set("root", rt.t).set("dir", rt.dir).set("wit", J.witJ(S.hs[h].wit)); });
-                    else if (rt.t > tLow + DT && rt.t < tHigh - DT && !listed.count((int)h))
-                        c.check("no-skip:" + tag + ":unlisted-crossing-inside-window", std::min(rt.t - tLow, tHigh - rt.t), DT, [&] { return base().set("what", "monitored crossing strictly inside the window is not in the triggered list").set("root", rt.t).set("dir", rt.dir).set("wit", J.witJ(S.hs[h].wit)); });
+                    const double DTr = Judge::tslack(rt, dev);
+                    if (rt.t < tLow - DTr)
+                        c.check("no-skip:" + tag + ":before-event-window", tLow - rt.t, DTr, [&] { return base().set("what", "an earlier monitored crossing was never reported").set("root", rt.t).set("dir", rt.dir).set("wit", J.witJ(S.hs[h].wit)); });
+                    else if (rt.t > tLow + DTr && rt.t < tHigh - DTr && !listed.count((int)h))
+                        c.check("no-skip:" + tag + ":unlisted-crossing-inside-window", std::min(rt.t - tLow, tHigh - rt.t), DTr, [&] { return base().set("what", "monitored crossing strictly inside the window is not in the triggered list").set("root", rt.t).set("dir", rt.dir).set("wit", J.witJ(S.hs[h].wit)); });
                     else c.check("no-skip:" + tag + ":before-event-window", 0, DT, nullptr);
                 }
             }
             lastTHigh = tHigh;
+            if (c.args.verbose) fprintf(stderr, "    at event: tAdv=%.17g uAdv=%.17g  t=%.17g u=%.17g\n", integ.getAdvancedTime(), integ.getAdvancedState().getU()[0], integ.getTime(), integ.getState().getU()[0]);
             // handle
             std::vector<double> yBefore = yhi;
             bool term = false; Stage lowest = Stage::Infinity;
@@ -1055,8 +1090,8 @@ void runManual(Ctx& c, Scen& sc, Built& B) {
         // analytic: no monitored crossing may lie behind a state that was returned as part of the trajectory
         {
             std::set<int> none;
-            J.missing(seg, t, 0, none, acc, "returned-state-passed-crossing");
             std::vector<double> y; copyY(integ.getState(), y);
+            J.missing(seg, t, y, 0, none, "returned-state-passed-crossing");
             if (t >= seg.ts) J.onTraj("returned-state", seg, t, y);
         }
         if (st == Integrator::EndOfSimulation) { break; }
@@ -1171,16 +1206,25 @@ void runStepper(Ctx& c, Scen& sc, Built& B) {
 int main(int argc, char** argv) {
     Args a = parseArgs(argc, argv);
     Ctx c(a);
+    DT = a.getNum("dt", DT);
     if (a.prop != "C22") { fprintf(stderr, "mon_events: unknown property %s\n", a.prop.c_str()); return 2; }
     return runCases(c, [&](long i, Rng& r) {
         Scen sc; Built B;
         c.setPhase("generate");
         genScenario(r, i, sc, B);
+        // debugging overrides (never used by registered runs)
+        if (a.getInt("every", -1) >= 0) sc.everyStep = a.getInt("every", 0) != 0;
+        if (a.getInt("interp", -1) >= 0) sc.allowInterp = a.getInt("interp", 0) != 0;
+        if (a.getInt("ras", -1) >= 0) sc.ras = a.getInt("ras", 0) != 0;
         if (a.verbose) fprintf(stderr, "case %ld: %s\n", i, scenJson(sc, *B.S).dump().c_str());
         if (sc.driver == 0) runManual(c, sc, B);
         else runStepper(c, sc, B);
         if (a.verbose) {
-            for (auto& r : B.S->log) fprintf(stderr, "  call h=%d(%s) t=%.17g term=%d\n", r.h, hkName(B.S->hs[r.h].kind), r.t, (int)r.term);
+            for (auto& r : B.S->log) {
+                fprintf(stderr, "  call h=%d(%s) t=%.17g term=%d mu=%g->%g nu=%g->%g  e:", r.h, hkName(B.S->hs[r.h].kind), r.t, (int)r.term, r.muIn, r.muOut, r.nuIn, r.nuOut);
+                for (auto& w : B.S->wits) fprintf(stderr, " %.3g", w.eval(r.t, r.yin.data()));
+                fprintf(stderr, "\n");
+            }
         }
     });
 }
